@@ -7,7 +7,7 @@ model, cross-checked with param.method_dependencies().
 from hypothesis import strategies as st
 
 import param
-from param.parameterized import batch_call_watchers
+from param.parameterized import batch_call_watchers, discard_events
 from vlib.core import Result
 
 ID = "C06"
@@ -31,13 +31,17 @@ METHODS = ["m0", "m1", "m2", "m3"]
 
 
 @st.composite
-def _mdef(draw, mi, avail=PARAMS):
+def _mdef(draw, mi, avail=PARAMS, avail_methods=()):
     if draw(st.integers(0, 4)) == 0 and mi != 0:
         return {"decorated": False}
-    pool = list(avail) + [p + ":bounds" for p in PARAMS[:2]] + METHODS[:mi][:1]
+    ms = [m for m in METHODS[:mi] if m in avail_methods]      # only methods that exist in this class or its ancestors
+    pool = list(avail) + [p + ":bounds" for p in PARAMS[:2]] + ms + ms
     deps = sorted(draw(st.sets(st.sampled_from(pool), min_size=1, max_size=3)))
-    return {"decorated": True, "deps": deps, "on_init": draw(st.sampled_from([False, False, True])),
-            "queued": draw(st.sampled_from([False, False, True]))}
+    d = {"decorated": True, "deps": deps, "on_init": draw(st.sampled_from([False, False, True])),
+         "queued": draw(st.sampled_from([False, False, True]))}
+    if d["on_init"] and draw(st.booleans()):
+        d["init_sets"] = draw(st.integers(0, len(avail) - 1))      # the body assigns a parameter during its on_init call
+    return d
 
 
 @st.composite
@@ -64,10 +68,16 @@ def _case(draw):
     for ci in range(len(bases)):
         avail = PARAMS if (not split or 1 in ancestors(ci)) else PARAMS[:2]
         defs = {}
+        inherited = {m for a in ancestors(ci) if a != ci for m in classes[a]}
         for mi, m in enumerate(METHODS):
             if draw(st.integers(0, 2 if ci else 1)) == 0 or (ci == 0 and mi == 0):
-                defs[m] = draw(_mdef(mi, avail))
+                defs[m] = draw(_mdef(mi, avail, inherited | set(defs)))
         classes.append(defs)
+    named = {dep for defs in classes for d in defs.values() if d["decorated"] for dep in d["deps"] if dep in METHODS}
+    for defs in classes:
+        for name, d in list(defs.items()):
+            if name in named and not d["decorated"]:
+                defs[name] = {"decorated": True, "deps": ["p0"], "on_init": False, "queued": False}
     val = st.integers(1, 9)
     op = st.one_of(
         st.tuples(st.just("set"), st.integers(0, 3), val),
@@ -77,6 +87,7 @@ def _case(draw):
         st.tuples(st.just("batch"), st.lists(st.one_of(st.tuples(st.just("v"), st.integers(0, 3)),
                                                       st.tuples(st.just("b"), st.integers(0, 1))), min_size=1, max_size=4)),
         st.tuples(st.just("slot"), st.integers(0, 1)),
+        st.tuples(st.just("discard"), st.lists(st.integers(0, 3), min_size=1, max_size=2, unique=True)),
         st.tuples(st.just("fn_set"), st.integers(0, 1), st.integers(0, 1), val),
         st.tuples(st.just("fn_update"), st.integers(0, 1)),
     ).map(list)
@@ -94,9 +105,13 @@ def execute(case):
     log = []
     n = len(case["bases"])
 
-    def mk_method(ci, name):
+    def mk_method(ci, name, init_sets=None):
         def m(self):
             log.append((ci, name))
+            if init_sets is not None and not getattr(self, "_did_init_set", {}).get(name):
+                # only during the very first (on_init) call: assign a parameter other methods may depend on
+                self.__dict__.setdefault("_did_init_set", {})[name] = True
+                setattr(self, PARAMS[init_sets], 77)
         m.__name__ = name
         return m
 
@@ -107,7 +122,7 @@ def execute(case):
         for p in (PARAMS[:2] if split else PARAMS) if ci == 0 else (PARAMS[2:] if split and ci == 1 else []):
             ns[p] = param.Number(default=0, bounds=(0, 100))
         for name, d in case["classes"][ci].items():
-            fn = mk_method(ci, name)
+            fn = mk_method(ci, name, d.get("init_sets") if d["decorated"] else None)
             if d["decorated"]:
                 fn = param.depends(*d["deps"], watch="queued" if d["queued"] else True, on_init=d["on_init"])(fn)
             ns[name] = fn
@@ -178,9 +193,18 @@ def execute(case):
     # ---- construction -----------------------------------------------------------------
     del log[:]
     inst = K()
-    want_init = sorted((ci, name) for name, (ci, ds, d) in auto.items() if d["on_init"])
-    if sorted(log) != want_init:
-        res.fail("C06.on_init", f"{mark_inh}construction called {sorted(log)!r}, expected exactly the on_init methods {want_init!r}")
+    want_init = [(ci, name) for name, (ci, ds, d) in auto.items() if d["on_init"]]
+    init_setters = [(name, d["init_sets"]) for name, (ci, ds, d) in auto.items() if d["on_init"] and d.get("init_sets") is not None]
+    if len({p for _n, p in init_setters}) == len(init_setters) <= 1:
+        # an on_init body that changes a parameter (0 -> 77) makes every method depending on it run once more
+        for _n, pi in init_setters:
+            want_init += [(ci, name) for name, (ci, ds, d) in auto.items() if (PARAMS[pi], "value") in ds]
+            marks.add("on_init_body_assigns")
+        if sorted(log) != sorted(want_init):
+            res.fail("C06.on_init", f"{mark_inh}construction called {sorted(log)!r}, expected {sorted(want_init)!r} (on_init methods, "
+                                    f"plus the dependents of what an on_init body assigned)")
+    else:
+        res.dontcare += 1      # several assigning on_init bodies: their interplay is not modelled
     # ---- method_dependencies cross-check --------------------------------------------------
     for name, (ci, ds, d) in auto.items():
         try:
@@ -202,7 +226,7 @@ def execute(case):
         fn_calls.append(args)
     fn_set = {(oi, "ab"[pi]) for oi, pi in case["fn_deps"]}
 
-    vals = {p: 0 for p in PARAMS}
+    vals = {p: getattr(inst, p) for p in PARAMS}
     bnds = {p: (0, 100) for p in PARAMS}
     fresh = [10]
 
@@ -256,6 +280,14 @@ def execute(case):
             for p, w in changed:
                 ps.setdefault(p, set()).add(w)
             both_value_and_slot = any(len(w) > 1 for w in ps.values())
+        elif k == "discard":
+            with discard_events(inst):
+                for pi in op[1]:
+                    p = PARAMS[pi]
+                    v = nxt() % 90
+                    setattr(inst, p, v)
+                    vals[p] = v
+            marks.add("discard")          # nothing may run for what was set inside (changed stays empty)
         elif k == "slot":
             p = PARAMS[op[1]]
             nb = (0, 100 + nxt())
